@@ -24,14 +24,12 @@ func (rr *SIG) Sign(k crypto.Signer, m *Msg) ([]byte, error) {
 	rr.Hdr = RR_Header{Name: ".", Rrtype: TypeSIG, Class: ClassANY, Ttl: 0}
 	rr.OrigTtl, rr.TypeCovered, rr.Labels = 0, 0, 0
 
-	buf := make([]byte, m.Len()+Len(rr))
-	mbuf, err := m.PackBuffer(buf)
+	mbuf, err := m.Pack()
 	if err != nil {
 		return nil, err
 	}
-	if &buf[0] != &mbuf[0] {
-		return nil, ErrBuf
-	}
+	buf := make([]byte, len(mbuf)+Len(rr))
+	copy(buf, mbuf)
 	off, err := PackRR(rr, buf, len(mbuf), nil, false)
 	if err != nil {
 		return nil, err
